@@ -4,12 +4,12 @@ from harness import tlc, engine
 from harness.common import Machinery, workdir, write_ndjson
 
 ALL_KINDS = ["defvar", "deffun", "assign", "delete", "mut_objproto", "mut_math", "mut_arrproto", "mut_strctor",
-             "mut_errproto", "throw", "loop", "recurse", "syntax", "ieval", "ieval_loop", "newfn", "read", "set", "get"]
+             "mut_errproto", "throw", "loop", "recurse", "syntax", "ieval", "ieval_loop", "newfn", "read", "reenter", "set", "get"]
 SUB_KINDS = ["defvar", "deffun", "assign", "delete", "mut_objproto", "throw", "loop", "recurse", "syntax", "ieval",
-             "newfn", "read", "set", "get"]
+             "newfn", "read", "reenter", "set", "get"]
 ACTIONS = ["Effect", "Exit", "EvalDefVar", "EvalDefFun", "EvalAssign", "EvalDelete", "EvalMutObjProto", "EvalMutMath",
            "EvalMutArrProto", "EvalMutStrCtor", "EvalMutErrProto", "EvalThrow", "EvalLoop", "EvalRecurse", "EvalSyntax",
-           "EvalIndirect", "EvalIndirectLoop", "EvalNewFunction", "EvalRead", "Set", "Get"]
+           "EvalIndirect", "EvalIndirectLoop", "EvalNewFunction", "EvalRead", "EvalReenter", "Set", "Get"]
 
 
 def consts(nc, maxn, vals, kinds):
@@ -18,7 +18,7 @@ def consts(nc, maxn, vals, kinds):
 
 
 MC_CFG = ("SPECIFICATION Spec\n%s" "CONSTRAINT Bound\nINVARIANT TypeOK PointerClear Recovery %s\n"
-          "PROPERTY Frame EffectsPersist AtomicAgrees SyntaxNoEffect\nCHECK_DEADLOCK FALSE\n")
+          "PROPERTY Frame EffectsPersist AtomicAgrees SyntaxNoEffect NestingBalanced\nCHECK_DEADLOCK FALSE\n")
 ENUM_CFG = "INIT EnumInit\nNEXT EnumNext\n%sCHECK_DEADLOCK FALSE\n"
 TRACE_CFG = ("INIT TraceInit\nNEXT TraceNext\nCONSTRAINT TraceEmit\nINVARIANT TraceTypeOK\n"
              + consts(3, 100, [1], []) + "CHECK_DEADLOCK FALSE\n")
@@ -38,7 +38,7 @@ def model_check(rep):
         runs.append(("catalogue-2values-3contexts-len3", consts(3, 3, [1, 2], ALL_KINDS), "RecoveryBehaviour", False))
     fired = {}
     for name, cs, extra_inv, cov in runs:
-        res = tlc.run(rep.pid, "ContextModel", MC_CFG % (cs, extra_inv), timeout=1500, tag="mc_" + name, coverage=cov)
+        res = tlc.run(rep.pid, "ContextModel", MC_CFG % (cs, extra_inv), timeout=1500, tag="mc_" + name, coverage=cov, heap="6g")
         rep.add_tlc("ContextModel." + name, res)
         if res.distinct < 1000:
             raise Machinery("model-checking run %s explored only %d states" % (name, res.distinct))
@@ -55,7 +55,7 @@ def model_check(rep):
 
 def enumerate_histories(rep, nc, length, alphabet, tag):
     res = tlc.run(rep.pid, "C12", ENUM_CFG % consts(nc, length, [1], []), env={"ALPHABET": alphabet},
-                  timeout=1500, tag=tag)
+                  timeout=1500, tag=tag, heap="4g")
     rep.add_tlc("C12.Enum(%s,len=%d,nc=%d)" % (alphabet, length, nc), res)
     limits, seen, hs = None, set(), []
     for r in res.records:
@@ -75,7 +75,7 @@ def simulate_histories(rep, nc, length, num, tag):
     """seeded random long histories drawn by TLC's simulator from the same specification"""
     wd = workdir(rep.pid, "sim")
     res = tlc.run(rep.pid, "C12", ENUM_CFG % consts(nc, length, [1], []), env={"ALPHABET": "full"},
-                  timeout=900, tag=tag, simulate="num=%d" % max(1, num // 16), depth=length + 2, seed=rep.seed)
+                  timeout=900, tag=tag, simulate="num=%d" % max(1, num // 16), depth=length + 2, seed=rep.seed, heap="3g")
     rep.add_tlc("C12.Simulate(len=%d,nc=%d,num=%d)" % (length, nc, num), res)
     seen, hs = set(), []
     for r in res.records:
@@ -155,6 +155,12 @@ def run(rep):
             v, t = got[tid], bytid[tid]
             if v["n"] != len(t["ev"]):
                 raise Machinery("trace %d: %d of %d events consumed" % (tid, v["n"], len(t["ev"])))
+            if v["ok"] and v.get("devs"):
+                # every observation is explained, some of them only by a listed deviation (as-is rule of the engine)
+                at = next(i for i, e in enumerate(t["ev"]) if e["k"] == "reenter" and e["r"] == 0)
+                rep.mismatch("%s @%d deviation" % (show(hist[tid])[:300], at + 1),
+                             {"deviation": v["devs"], "event": t["ev"][at], "history": hist[tid][:at + 1]}, dev=v["devs"])
+                continue
             if v["ok"]:
                 if len(rep.samples) < 4 and tid % 9973 == 0:
                     rep.sample({"history": show(hist[tid]), "last_event": t["ev"][-1], "verdict": "accepted"})
@@ -167,7 +173,7 @@ def run(rep):
             ev = t["ev"][w["at"] - 1]
             rep.mismatch("%s @%d %s(c%d)" % (show(hist[tid])[:300], w["at"], w["clause"], w["c"]),
                          {"clause": w["clause"], "at": w["at"], "context": w["c"], "expected_projection": w["exp"],
-                          "event": ev, "history": hist[tid][:w["at"]]}, dev=w.get("dev", ""))
+                          "event": ev, "history": hist[tid][:w["at"]]}, dev="")
         del traces, verdicts, got, bytid, hist, part
     T = {k: round(v, 1) for k, v in T.items()}
     rep.notes['stage_wall_s'] = T
@@ -186,7 +192,7 @@ def run(rep):
 
 def selftest_shape(t):
     ks = [e["k"] for e in t["ev"]]
-    return len(ks) >= 2 and ks[0] in ("defvar", "set") and ks[1] not in (
+    return len(ks) >= 2 and ks[0] in ("defvar", "set") and "reenter" not in ks and ks[1] not in (
         "defvar", "set", "assign", "throw", "loop", "recurse", "ieval", "ieval_loop")
 
 
@@ -207,7 +213,7 @@ def selftest(rep, base):
     v, st, tr, _ = tlc.judge(rep.pid, "C12", [a, b, c0], TRACE_CFG, tag="selftest", shards=1)
     res = {x["tid"]: x for x in v if "tid" in x}
     ok = (len(res) == 3 and not res[1]["ok"] and res[1]["why"]["clause"] == "frame"
-          and not res[2]["ok"] and res[2]["why"]["clause"] == "state" and res[3]["ok"])
+          and not res[2]["ok"] and res[2]["why"]["clause"] == "state" and res[3]["ok"] and not res[3]["devs"])
     rep.notes["binding_selftest"] = {"corrupted_field": res.get(1, {}).get("why"), "dropped_event": res.get(2, {}).get("why"),
                                      "control_accepted": res.get(3, {}).get("ok")}
     if not ok:
